@@ -4,7 +4,7 @@ CHECK = dict(
     level="exploration",
     level_text="Generated-input search over (history, next message) pairs on every pooled receive path: rapid draws histories of valid marker messages and a next message that is valid, truncated, declares more records than it carries or points beyond its own end; a real plain-DNS server on loopback (UDP, TCP with queries of up to 60 KiB beyond the initial pooled buffer size, frames split in two segments) and one behind a bindtodevice.Manager bound to lo (the receive path of interface listeners, with its own pooled body buffers) echo a digest of the decoded request; the decoding result of the warmed real code must equal the decoding of the next message's own bytes in a buffer of exactly its length (reference decode), and must not contain any marker. Truncation offsets are also enumerated exhaustively for fixed messages.",
     level_note="Trusts miekg/dns Unpack as the reference decoder of a message's own bytes. Buffer reuse relies on sync.Pool handing back the same buffer on the same goroutine (a pool miss only costs sensitivity). DoH bodies are read with io.ReadAll (no pooled buffer) and are not exercised here. The bind-to-device part needs CAP_NET_RAW (SO_BINDTODEVICE on lo); without it that part is skipped and says so in the evidence.",
-    technique="property-based testing (rapid) + bounded-exhaustive cut points: warmed real read path vs reference decode of the message's own bytes, marker-leak detector",
+    technique="property-based testing (rapid) + bounded-exhaustive cut points + native coverage-guided fuzzing of the two in-memory read paths (thorough tier): warmed real read path vs reference decode of the message's own bytes, marker-leak detector",
     assumptions=[
         "miekg/dns Unpack of a byte slice of exactly the message's length is the reference semantics of 'its own bytes'",
         "sync.Pool reuse on one goroutine is likely but not guaranteed; misses reduce sensitivity, never soundness",
@@ -14,6 +14,8 @@ CHECK = dict(
             dict(name="quic", run="^TestVerifC06QUIC$", quick=4000, thorough=200000, shards_thorough=6),
             dict(name="quic-cuts", run="^TestVerifC06QUICCuts$", quick=0, thorough=0),
             dict(name="sockets", run="^TestVerifC06Sockets$", quick=400, thorough=12000, shards_thorough=4),
+            dict(name="quic-fuzz", run="^FuzzVerifC06QUIC$", quick=0, thorough=0, tier_only="thorough",
+                 fuzz="^FuzzVerifC06QUIC$", fuzztime="90s", timeout_thorough=600, env={"GOMAXPROCS": "4"}),
         ]),
         dict(name="bindtodevice", dir="internal/bindtodevice", src="C06/bindtodevice", runs=[
             dict(name="btd-udp", run="^TestVerifC06BindToDevice$", quick=300, thorough=10000, shards_thorough=2),
@@ -21,6 +23,8 @@ CHECK = dict(
         dict(name="forward", dir=D + "/forward", src="C06/forward", runs=[
             dict(name="readmsg", run="^TestVerifC06UpstreamRead$", quick=4000, thorough=200000, shards_thorough=6),
             dict(name="exchange", run="^TestVerifC06UpstreamExchange$", quick=600, thorough=20000, shards_thorough=4),
+            dict(name="readmsg-fuzz", run="^FuzzVerifC06Upstream$", quick=0, thorough=0, tier_only="thorough",
+                 fuzz="^FuzzVerifC06Upstream$", fuzztime="90s", timeout_thorough=600, env={"GOMAXPROCS": "4"}),
         ]),
     ],
 )
